@@ -21,3 +21,28 @@ package wallet
 //@     invariant forall k int :: 0 <= k && k < $i ==> (sigs[k] == nil) == (clonedSigs[k] == nil) && (sigs[k] != nil ==> fresh(arr(clonedSigs[k])))
 //@     invariant forall k int :: 0 <= k && k < $i ==> sigBytesEq(clonedSigs[k], sigs[k])
 //@     invariant forall k int :: $i <= k && k < len(sigs) ==> clonedSigs[k] == nil
+
+// addrEq(a, b): the two addresses have the same binary encoding (interface
+// contract of Address: Equal, MarshalBinary/UnmarshalBinary are consistent).
+//@ ghost func addrEq(a Address, b Address) bool
+
+// CloneAddress goes through the address's own MarshalBinary/UnmarshalBinary and
+// the backend registry; its contract is the interface contract of Address
+// implementations (proved nowhere in this repository for third-party backends).
+//@ func CloneAddress
+//@   trusted
+//@   requires a != nil
+//@   ensures result != nil && fresh(payload(result)) && addrEq(result, a)
+
+//@ pred addrMapCloned(c map[BackendID]Address, o map[BackendID]Address) =
+//@   c != nil && fresh(c) && (forall b BackendID :: has(c, b) <==> has(o, b)) &&
+//@   (forall b BackendID :: has(o, b) ==> c[b] != nil && fresh(payload(c[b])) && addrEq(c[b], o[b]))
+//@ pred addrMapNonNil(o map[BackendID]Address) = forall b BackendID :: has(o, b) ==> o[b] != nil
+
+//@ func CloneAddressesMap
+//@   requires addrMapNonNil(as)
+//@   ensures addrMapCloned(result, as)
+//@   loop 1
+//@     modifies clones[*]
+//@     invariant forall b BackendID :: has(clones, b) <==> visited(b)
+//@     invariant forall b BackendID :: visited(b) ==> clones[b] != nil && fresh(payload(clones[b])) && addrEq(clones[b], as[b])
